@@ -1,6 +1,8 @@
 /- Driver handlers for the C10 / C11 correspondence streams (commit and close operation sequences). -/
 import Csvq.Model.Commit
 import Csvq.Gen.FsProto
+import Csvq.Model.FileBytes
+import Csvq.Model.Proto
 namespace Csvq.Drive
 open Csvq.Commit
 
@@ -21,6 +23,14 @@ def prefixAt (ops : List String) (point : String) : Option Nat :=
   | "commit.done" => some ops.length
   | _ => none
 
+/-- one file-descriptor operation of the byte-level model: `t` ftruncate(0), `s` lseek(0), `w:<hex>` write -/
+def fbytesOp (f : Csvq.FileBytes.F) (tok : String) : Option Csvq.FileBytes.F :=
+  if tok = "t" then some (Csvq.FileBytes.truncate0 f)
+  else if tok = "s" then some (Csvq.FileBytes.seek0 f)
+  else match tok.splitOn ":" with
+    | ["w", h] => (Csvq.Proto.unhex h).map fun b => Csvq.FileBytes.write f b
+    | _ => none
+
 def c10 (cmd : String) (args : List String) : String :=
   let ops := Csvq.Gen.commitUpdateOps
   match cmd, args with
@@ -40,6 +50,10 @@ def c10 (cmd : String) (args : List String) : String :=
     -- closing a handler that was opened for update / read: the data file is not removed (ForCreate guard)
     let fops := (l.filter (· ≠ "remove(h.path)")).map parseOp
     showData (runOps fops { symStart with rlock := true })
+  | "fbytes", toks =>
+    match toks.foldlM fbytesOp (⟨[], 0⟩ : Csvq.FileBytes.F) with
+    | some f => s!"{Csvq.Proto.hex f.bytes}@{f.pos}"
+    | none => "bad-op"
   | _, _ => "bad-op"
 
 end Csvq.Drive
